@@ -371,8 +371,8 @@ theorem uniqE_names (cfg : Cfg) (e e' : EL) (hg : ∀ r ∈ e.ranges, r.Good)
     (hb : cfg.fixCmpTrunc = true ∨ ∀ r ∈ e.ranges, r.lo < 2147483648) (h : uniqE cfg e = some e') :
     (∀ x, x ∈ e'.hosts ↔ x ∈ e.hosts) ∧ ∀ r ∈ e'.ranges, r.Good := by
   unfold uniqE at h
-  by_cases hlen : e.rs.length ≤ 1
-  · simp only [hlen, ↓reduceIte, Option.some.injEq] at h
+  by_cases hlen : e.rs.length ≤ 1 ∧ cfg.fixUniqReset = false
+  · simp only [hlen, and_self, ↓reduceIte, Option.some.injEq] at h
     rw [← h]; exact ⟨fun _ => Iff.rfl, hg⟩
   · simp only [hlen, ↓reduceIte] at h
     cases hl : uniqLoop cfg (2 * e.rs.length + 2) { e with rs := sortRanges cfg e.rs } 1 with
